@@ -282,9 +282,52 @@ func (h *c17) independent(fs *FileSet, set map[string]bool) string {
 	return ""
 }
 
+// refineFreeze narrows the deep-copy explanation by where unfrozen containers are actually reachable from the
+// exports of the subincluded files on the real interpreter: the known root cause is "element of a frozen list";
+// a value of a frozen dict, or an export that is not frozen at all, is a different defect.
+func (h *c17) refineFreeze(fs *FileSet) []string {
+	h.asp.fresh()
+	h.seq++
+	var b strings.Builder
+	for _, d := range fs.Defs {
+		pn, tn := labelParts(d.Label)
+		fmt.Fprintf(&b, "subinclude(%q)\n", h.asp.AddDefs(fmt.Sprintf("r%d_%s", h.seq, pn), tn, defsText(d, nil)))
+	}
+	sc, err := h.asp.EvalScope(fmt.Sprintf("r%d_probe", h.seq), b.String())
+	if err != nil {
+		return []string{"freeze-keeps-unfrozen-elements"}
+	}
+	kinds := leakKinds(sc.Render(true))
+	var out []string
+	// does a frozen wrapper itself take an assignment?  (X[0] = X[0] on every exported non-empty list)
+	for _, d := range fs.Defs {
+		for _, x := range exportedNames(d.Prog) {
+			probe := b.String() + fmt.Sprintf("_t = %s[0]\n%s[0] = _t\n", x, x)
+			h.seq++
+			if _, err := h.asp.EvalScope(fmt.Sprintf("r%d_probe_%s", h.seq, x), probe); err == nil {
+				out = append(out, "frozen-container-accepts-assignment")
+				break
+			}
+		}
+	}
+	if kinds["dict-value"] {
+		out = append(out, "freeze-dict-keeps-unfrozen-values")
+	}
+	if kinds["top"] {
+		out = append(out, "export-not-frozen")
+	}
+	if kinds["list-elem"] || len(out) == 0 {
+		out = append(out, "freeze-keeps-unfrozen-elements")
+	}
+	return out
+}
+
 func (h *c17) classify(fs *FileSet) []string {
 	for _, rp := range c17Repairs {
 		if h.independent(fs, map[string]bool{rp.key: true}) == "" {
+			if rp.key == "FZ" {
+				return h.refineFreeze(fs)
+			}
 			return []string{rp.class}
 		}
 	}
@@ -313,6 +356,10 @@ func (h *c17) classify(fs *FileSet) []string {
 
 func (h *c17) runOp(op string) {
 	r := h.r
+	if strings.HasPrefix(op, "msc ") {
+		h.runConfigOp(op)
+		return
+	}
 	if !strings.HasPrefix(op, "ms ") {
 		r.Emit(op, "bad-op", false)
 		return
@@ -508,7 +555,12 @@ func (x *g17) pkgFile(label string, tag int) []*S {
 			if r.Chance(60) {
 				src = x.frozenRef()
 			}
-			p = append(p, Asg(v, Bin(src, "+", x.g.L(I(100*tag+r.Intn(50))))))
+			if r.Chance(25) {
+				// nothing appended: the "sum" may be the frozen list's own slice
+				p = append(p, Asg(v, Bin(src, "+", x.g.L())), IdxAsg(v, I(0), I(100*tag+r.Intn(50))))
+			} else {
+				p = append(p, Asg(v, Bin(src, "+", x.g.L(I(100*tag+r.Intn(50))))))
+			}
 		case 5: // dict reached through a list
 			if x.exp["LD"] != "" {
 				v := local()
@@ -578,7 +630,12 @@ func MainC17() {
 		return
 	}
 	x := &g17{r: r.Rng}
-	for i := 0; i < r.N(220, 6000); i++ {
+	// values taken from CONFIG (the interpreter's own state: a fresh interpreter per run, so only a few)
+	for i := 0; i < r.N(3, 30); i++ {
+		r.Count("gen:config")
+		h.runOp("msc " + configFileSet(r.Rng).Sexp())
+	}
+	for i := 0; i < r.N(220, 2500); i++ {
 		npkg := 2
 		if r.Rng.Chance(25) {
 			npkg = 3
